@@ -140,3 +140,18 @@ Definition show (c : case) :=
        (ashape (go_data go), adata (go_data go), go_dtype go, map (map Qred) (go_aff go)),
        (Some (h_dim_info h), Some (h_pixdim4 h), Some (go_perm go), Some (go_flips go), Some (h_slice_times h)))
   end.
+
+(** * The dtype lattice against numpy: [np.result_type] of two / three dtypes *)
+Record lcase := mklcase { l_args : list str; l_res : str }.
+
+Definition check_lattice (c : lcase) : bool :=
+  match mapM (fun s => match dt_of_name s with Some d => Ok d | None => Err ECrash end) (l_args c) with
+  | Ok (d :: ds) => str_eqb (dt_name (result_type (d :: ds))) (l_res c)
+  | _ => false
+  end.
+
+Definition show_lattice (c : lcase) :=
+  match mapM (fun s => match dt_of_name s with Some d => Ok d | None => Err ECrash end) (l_args c) with
+  | Ok (d :: ds) => Some (dt_name (result_type (d :: ds)))
+  | _ => None
+  end.
